@@ -33,7 +33,7 @@ def budget(tier):
 
 @st.composite
 def _cases(draw, n_max=6):
-    seq = draw(gen.seq_cases(n_min=1, n_max=n_max, basis="rydberg", allow_mod=True, max_ops=4, dur_hi=100, dmin=5.0, dmax=11.0))
+    seq = draw(gen.seq_cases(n_min=1, n_max=n_max, basis="rydberg", allow_mod=True, max_ops=4, dur_hi=100, dmin=5.0, dmax=11.0, allow_no_global=True))
     n = len(seq["reg"]["ids"])
     c = {"seq": seq, "dt": draw(gen.dts()), "ktol": 10.0 ** draw(st.sampled_from([-6, -8, -10, -10, -12])),
          "evals": [draw(gen.eval_time_sets(3)) for _ in range(3)],
